@@ -232,6 +232,18 @@ func (c *Ctx) Finish(verifDir string, controls []controlExpect, start time.Time,
 		fnList = append(fnList, f)
 	}
 	sort.Strings(fnList)
+	if assumptions == nil {
+		assumptions = []string{}
+	}
+	if trusted == nil {
+		trusted = []string{}
+	}
+	if c.notes == nil {
+		c.notes = []string{}
+	}
+	if c.observed == nil {
+		c.observed = []string{}
+	}
 	ev := map[string]any{
 		"property_id": c.Prop,
 		"tier":        c.Tier,
